@@ -447,7 +447,7 @@ pub fn build(s: &Spec) -> BX {
 pub fn drain_all(b: &mut dyn BufX) -> Vec<u8> {
     let mut out = Vec::new();
     let mut guard = 0;
-    while b.remaining() > 0 && guard < 1_000_000 {
+    while b.remaining() > 0 && guard < 20_000 && out.len() < (1 << 20) {
         let c = b.chunk();
         let n = c.len();
         if n == 0 {
